@@ -115,6 +115,19 @@ char *verif_strdup(const char *s);
                            g.faults == __CPROVER_loop_entry(g.faults) &&       \
                            (written == 0 ? g.in_fd == -1 : g.in_fd == *pipe))                 \
   __CPROVER_decreases(size - written)
+/* close-all loop of process_fork (child side): everything below i that is not
+   kept is closed; everything kept, and everything from i on, is as it was */
+#define VERIF_KEEP_MASK (MASK_OF(except[0]) | MASK_OF(except[1]) | MASK_OF(except[2]) | MASK_OF(except[3]) | MASK_OF(except[4]) | MASK_OF(except[5]) | MASK_OF(pipe.read) | MASK_OF(pipe.write))
+#define VERIF_LOW(n) ((n) >= 32 ? 0xffffffffu : ((1u << (n)) - 1u))
+#define REPROC_VERIF_LOOP_close_all                                            \
+  __CPROVER_assigns(i, r, g.os_calls, g.open, g.lib, g.cloexec, g.nonblock, g.rd, g.wr, \
+                    g.obj, g.err, g.faults, g.first_errno) \
+  __CPROVER_loop_invariant(0 <= i && i <= max_fd + 1 &&                        \
+                           (g.open & VERIF_LOW(i) & ~VERIF_KEEP_MASK) == 0 &&  \
+                           (g.open & (VERIF_KEEP_MASK | ~VERIF_LOW(i))) ==     \
+                               (__CPROVER_loop_entry(g.open) & (VERIF_KEEP_MASK | ~VERIF_LOW(i))) && \
+                           (g.cloexec & VERIF_KEEP_MASK) == (__CPROVER_loop_entry(g.cloexec) & VERIF_KEEP_MASK)) \
+  __CPROVER_decreases(max_fd + 1 - (long) i)
 #endif
 #ifndef REPROC_VERIF_LOOP_setup_input
 #define REPROC_VERIF_LOOP_setup_input
